@@ -135,13 +135,15 @@ class MangleFile(Base):
         base, extv = out.result
         ev = cp(extv)
         if self.level == 4:
-            # level 4 allows anything: the name is only cut at its last dot (no version is appended at this level)
-            src = cp(a.s)
+            # level 4 allows anything but the version separator: semicolons are replaced, then the name is only cut at its last
+            # dot (no version is appended at this level); the library accepts the result (no semicolon, name.ext not empty)
+            src = [If(x == 59, 95, x) for x in cp(a.s)]
             joined = cp(base) + [46] + ev
             has_dot = Or(*[x == 46 for x in src])
             whole = And(len(cp(base)) == len(src), len(ev) == 0, *[Eq(x, y) for x, y in zip(cp(base), src)]) if len(cp(base)) == len(src) and not ev else False
             rejoin = And(*[Eq(x, y) for x, y in zip(joined, src)]) if len(joined) == len(src) else False
-            return {'level4-cut-at-last-dot': If(has_dot, And(rejoin, *[x != 46 for x in ev]), whole)}
+            return {'level4-cut-at-last-dot': If(has_dot, And(rejoin, *[x != 46 for x in ev]), whole),
+                    'level4-no-version-separator-left': And(*[x != 59 for x in cp(base) + ev])}
         if len(ev) < 2:
             return {'version-appended': False}
         ext = ev[:-2]
@@ -203,3 +205,39 @@ class MangleDir(Base):
 
     def observe(self, c, a, out):
         return {'kind': out.kind, 'r': out.result if isinstance(out.result, str) else None}
+
+
+@contract
+class MangleFileLong(Base):
+    """C18/file, long names (concrete, the interesting part is the arithmetic of the two cuts): at levels 2 and 3 the name and the
+    extension of the result together have at most 30 characters (ECMA-119 7.5.1, quoted in the function's own comment), the
+    result consists of d-characters and carries the version"""
+    target = U + 'mangle_file_for_iso9660'
+    name = 'x' * 30 + '.tx2'
+    level = 3
+    crosscheck = False
+
+    def setup(self, c):
+        c.a.s = self.name
+        return Call([self.name, self.level])
+
+    def post(self, c, a, out):
+        base, extv = out.result
+        ext = extv[:-2] if extv.endswith(';1') else extv
+        import re
+        return {'version-appended': extv.endswith(';1'),
+                'd-characters': re.fullmatch('[A-Z0-9_]*', base) is not None and re.fullmatch('[A-Z0-9_]*', ext) is not None,
+                'name-plus-extension-at-most-30': len(base) + len(ext) <= 30}
+
+    # K52 (recorded, not repaired): the name part is cut to 30 characters without regard to the extension that is kept, so a long
+    # name with a short extension gives up to 33 characters.  The library accepts and writes such identifiers (it deliberately does
+    # not enforce the limit at levels 2 and 3, because images in the wild exceed it), so nothing fails later; shortening the name
+    # part would change the identifiers generated for existing trees.
+    @property
+    def known(self):
+        stem, _, ext = self.name.rpartition('.')
+        long_case = len(stem) + len(ext) > 30 and 1 <= len(ext) <= 3
+        return {'/post:name-plus-extension-at-most-30': [('K52', lambda a: long_case, 'mangle_file_for_iso9660 at levels 2-3 keeps a 30-character name part AND the extension: up to 33 characters where ECMA-119 7.5.1 allows 30 (accepted and written by the library as is)')]}
+
+    def observe(self, c, a, out):
+        return {'kind': out.kind, 'result': list(out.result) if out.kind == 'return' else None}
